@@ -852,4 +852,24 @@ theorem innermostBody_eq_firstDefBefore {p : NProg} (h : WFS p = true) (pos : Po
           omega
     rw [sorted_getLast (enclosers_sorted p pos) hxE hmax]
 
+/-- where the `parent()` chain of a definition starts on the tree: a `def` / `class` name at the
+scope its statement sits in, a parameter or an assigned name at its own scope -/
+def chainStart (p : NProg) (l : Leaf) : Nat :=
+  match l.role with
+  | .defName s => p.pscope s
+  | _ => l.pscope
+
+/-- hypothesis of `parent_chain_eq_enclosing_partial`: definitions only; an assigned name must sit
+in a body (not in a header) and its first named context must not be a lambda -/
+def ChainHyp (p : NProg) (i : Nat) : Bool :=
+  match p.leaves[i]? with
+  | none => false
+  | some l =>
+    match l.role with
+    | .defName s => decide (s < p.scopes.length) && p.isDef s
+    | .param => true
+    | .bind => (scopeOfNode p l.start l.pscope l.isParamName == l.pscope) &&
+        (p.kind (skipComps p p.fuel l.pscope) != .lambda)
+    | _ => false
+
 end JediModel.Nesting
